@@ -8,6 +8,8 @@
 #[path = "../common.rs"] mod common;
 #[path = "../ops_text.rs"] mod ops_text;
 #[path = "../generated_literals.rs"] mod generated_literals;
+#[path = "../ops_elem.rs"] mod ops_elem;
+#[path = "../ops_create.rs"] mod ops_create;
 
 use common::*;
 use std::io::{BufRead, Write};
@@ -28,7 +30,7 @@ fn main() {
         let res = match parse_args(&toks[1..]) {
             Ok(args) => {
                 out.flush().unwrap();
-                match std::panic::catch_unwind(std::panic::AssertUnwindSafe(|| ops_text::dispatch(op, ty, &args).unwrap_or_else(|| "bad".to_string()))) {
+                match std::panic::catch_unwind(std::panic::AssertUnwindSafe(|| ops_text::dispatch(op, ty, &args).or_else(|| ops_create::dispatch(op, ty, &args)).unwrap_or_else(|| "bad".to_string()))) {
                     Ok(s) => s, Err(_) => "panic".to_string(),
                 }
             }
